@@ -339,3 +339,187 @@ def lookup_applies_ln(prog, lf, table_fn_path):
             if from_table:
                 n += 1
     return n
+
+
+# ---- ln_gamma: the branch used for factorials (x = n + 1 >= 0.5) as an expression ---------------------------------------------
+def _gterm(prog, g, op, env, depth=0):
+    """expression term of an f64 operand of g: ("c", text) constants, leaves from env {local: term}, add/sub/mul/div, ln/sin, ("DK", k),
+    ("fold", init, closure term, adaptors, skip count); ("?", why) otherwise"""
+    if depth > 60:
+        return ("?", "depth")
+    if op["k"] == "const":
+        v = const_val(op)
+        if isinstance(v, dict) and "f" in v:
+            return ("c", v["f"])
+        if op.get("item"):
+            return ("item", op["item"])
+        return ("c", str(v))
+    pl = op_place(op)
+    if pl is None:
+        return ("?", "operand")
+    l, proj = pl
+    key = (l, tuple((e[0], e[1] if len(e) > 1 else None) for e in proj if e[0] in ("field", "deref")))
+    for cand in (key, (l, tuple(x for x in key[1] if x[0] == "field"))):
+        if cand in env:
+            return env[cand]
+    ix = [e for e in proj if e[0] in ("index", "constindex")]
+    if ix:
+        base = g.single_def(l)
+        kk = ix[0][1] if ix[0][0] == "constindex" else (an.const_of(g, {"k": "copy", "place": {"l": ix[0][1], "p": []}}) or {}).get("val")
+        if base and base[0] == "assign" and base[3]["k"] == "use" and base[3]["op"]["k"] == "const" and "DK" in str(base[3]["op"].get("item") or base[3]["op"]):
+            return ("DK", kk)
+        return ("?", "index")
+    d = g.single_def(l)
+    if d is None:
+        return ("?", "multi-def")
+    if d[0] == "assign":
+        rv = d[3]
+        k = rv["k"]
+        if k == "use":
+            return _gterm(prog, g, _with_proj(rv["op"], proj), env, depth + 1)
+        if k in ("ref", "copyforderef"):
+            p2 = P(rv["place"])
+            return _gterm(prog, g, {"k": "copy", "place": {"l": p2[0], "p": _raw_proj(p2[1]) + _raw_proj(tuple(e for e in proj if e[0] != "deref"))}}, env, depth + 1)
+        if k == "cast":
+            return _gterm(prog, g, rv["op"], env, depth + 1)
+        if k == "binop":
+            o = rv["op"].replace("WithOverflow", "").lower()
+            if o in ("add", "sub", "mul", "div"):
+                return (o, _gterm(prog, g, rv["l"], env, depth + 1), _gterm(prog, g, rv["r"], env, depth + 1))
+            return ("?", rv["op"])
+        return ("?", k)
+    if d[0] == "call":
+        t = d[2]
+        nm = callee_name(t["callee"])
+        cp = t["callee"].get("path") or ""
+        last = nm.split("::")[-1]
+        if cp.startswith("core::ops::arith::") and last in ("add", "sub", "mul", "div") and len(t["args"]) == 2:
+            return (last, _gterm(prog, g, t["args"][0], env, depth + 1), _gterm(prog, g, t["args"][1], env, depth + 1))
+        if last in ("ln", "sin") and "f64" in nm:
+            return (last, _gterm(prog, g, t["args"][0], env, depth + 1))
+        if last == "fold" and len(t["args"]) == 3:
+            ch = IT.receiver_chain(g, t["args"][0])
+            names = IT.chain_names(ch)
+            sk = IT.chain_get(ch, "skip")
+            skn = (an.const_of(g, sk["args"][1]) or {}).get("val") if sk is not None else None
+            src = ch[-1][1]
+            srcd = g.single_def(src[0]) if src is not None else None
+            over_dk = bool(srcd and srcd[0] == "assign" and srcd[3]["k"] == "use" and srcd[3]["op"]["k"] == "const" and "DK" in str(srcd[3]["op"].get("item") or srcd[3]["op"]))
+            cpth = an.closure_of_operand(g, t["args"][2])
+            c = prog.fn(cpth) if cpth else None
+            cterm = ("?", "closure")
+            if c is not None:
+                # fold closure: _2 = accumulator, _3 = (k, &DK[k]); the captured x is upvar 0
+                cenv = {(2, ()): ("acc",), (3, (("field", 0),)): ("k",), (3, (("field", 1),)): ("dk",), (3, (("field", 1), ("deref", None))): ("dk",)}
+                caps = an.closure_captures(g, cpth) or []
+                for i_, cp_ in enumerate(caps):
+                    if cp_ is not None:
+                        ct = _gterm(prog, g, {"k": "copy", "place": {"l": cp_[0], "p": _raw_proj(cp_[1])}}, env, depth + 1)
+                        cenv[(1, (("deref", None), ("field", i_)))] = ct
+                        cenv[(1, (("field", i_),))] = ct
+                        cenv[(1, (("deref", None), ("field", i_), ("deref", None)))] = ct
+                cterm = _gterm(prog, c, {"k": "copy", "place": {"l": 0, "p": []}}, cenv, depth + 1)
+            return ("fold", _gterm(prog, g, t["args"][1], env, depth + 1), cterm, tuple(names), skn, over_dk)
+        return ("?", "call " + last)
+    return ("?", d[0])
+
+
+def _raw_proj(proj):
+    """normal-form projection elements back into the raw list form of the facts"""
+    out = []
+    for e in proj:
+        if e[0] == "deref":
+            out.append(["deref"])
+        elif e[0] == "field":
+            out.append(["field", e[1], e[2] if len(e) > 2 else None, e[3] if len(e) > 3 else None])
+        elif e[0] == "index":
+            out.append(["index", e[1]])
+        elif e[0] == "constindex":
+            out.append(["constindex", e[1], e[2] if len(e) > 2 else None, e[3] if len(e) > 3 else None])
+        elif e[0] == "downcast":
+            out.append(["downcast", e[1], e[2] if len(e) > 2 else None])
+    return out
+
+
+def _with_proj(op, proj):
+    if not proj or op["k"] == "const":
+        return op
+    pl = op_place(op)
+    return {"k": "copy", "place": {"l": pl[0], "p": _raw_proj(pl[1]) + _raw_proj(proj)}}
+
+
+def _nrm(t):
+    if not isinstance(t, tuple) or not t:
+        return t
+    if t[0] in ("add", "mul"):
+        parts = []
+        def flat(x):
+            x = _nrm(x)
+            if isinstance(x, tuple) and x and x[0] == ("sum" if t[0] == "add" else "prod"):
+                parts.extend(x[1])
+            else:
+                parts.append(x)
+        flat(t[1]); flat(t[2])
+        return ("sum" if t[0] == "add" else "prod", tuple(sorted(parts, key=repr)))
+    if t[0] in ("sub", "div"):
+        return (t[0], _nrm(t[1]), _nrm(t[2]))
+    if t[0] in ("ln", "sin"):
+        return (t[0], _nrm(t[1]))
+    if t[0] == "fold":
+        return ("fold", _nrm(t[1]), _nrm(t[2])) + t[3:]
+    return t
+
+
+def ln_gamma_upper_branch(prog, f):
+    """(ok, why): on x >= 0.5 ln_gamma returns  ln(S) + C + (x - 0.5) * ln((x - 0.5 + R) / e)  with  S = DK[0] + sum_{k>=1} DK[k] / (x + k - 1)
+    (the Lanczos form the coefficients belong to); C and R are read from the constants and reported"""
+    X = ("x",)
+    env = {(1, ()): X}
+    # the return value assigned on the `x < 0.5` == false edge
+    br = None
+    for sb, st in f.switches():
+        s_ = an.switch_subject(f, sb)
+        d_ = f.single_def(s_["root"]) if s_["kind"] == "value" and s_["root"] is not None else None
+        if d_ and d_[0] == "assign" and d_[3]["k"] == "binop" and d_[3]["op"] == "Lt":
+            c = const_val(d_[3]["r"])
+            if isinstance(c, dict) and c.get("f") == "0.5":
+                br = (sb, an.edge_target(st, 0))
+    if br is None:
+        return False, "the `x < 0.5` test was not found"
+    defs0 = [x for x in f.defs.get(0, []) if an.dominated_by_edge(f, br[0], br[1], x[1])]
+    if len(defs0) != 1 or defs0[0][0] != "assign":
+        return False, "the value returned for x >= 0.5 is not a single expression"
+    got = _nrm(_gterm_rv(prog, f, defs0[0][3], env))
+    half = ("c", "0.5")
+    def want(C, R):
+        s = ("fold", ("DK", 0), _nrm(("add", ("acc",), ("div", ("dk",), ("sub", ("add", X, ("k",)), ("c", "1.0"))))), ("skip", "enumerate", "iter"), 1, True)
+        xm = ("sub", X, half)
+        return _nrm(("add", ("add", ("ln", s), ("c", C)), ("mul", xm, ("ln", ("div", ("add", xm, ("c", R)), ("c", "2.718281828459045"))))))
+    C = (prog.consts.get("sfs_core::utils::gamma::LN_2_SQRT_E_OVER_PI") or {}).get("val") or {}
+    R = (prog.consts.get("sfs_core::utils::gamma::R") or {}).get("val") or {}
+    w = want(C.get("f"), R.get("f"))
+    consts_ok = C.get("f") == "0.6207822376352452" and R.get("f") == "10.900511"
+    # the coefficients d_0..d_10 of that approximation (g = 10.900511, n = 11; as published with it)
+    DK_REF = ["2.4857408913875355e-5", "1.0514237858172197", "-3.4568709722201625", "4.512277094668948", "-2.9828522532357664", "1.056397115771267",
+              "-0.19542877319164587", "0.01709705434044412", "-0.0005719261174043057", "4.633994733599057e-6", "-2.7199490848860772e-9"]
+    dk = ((prog.consts.get("sfs_core::utils::gamma::DK") or {}).get("val") or {}).get("floats")
+    dk_ok = dk is not None and [x.get("f") for x in dk] == DK_REF
+    consts_ok = consts_ok and dk_ok
+    ok = got == w and consts_ok
+    if got != w and "'?'" in repr(got) and consts_ok:
+        # the expression uses a construct this reader does not model (a series summed by a loop in a helper, ..): nothing is concluded
+        # about its form; the constants are still pinned
+        return None, "the x >= 0.5 expression is written in a form that is not read (%s); the constants equal the reviewed ones" % (
+            [x for x in repr(got).split("('?', ")[1:2]],)
+    return ok, "expression matches=%s; ln(2 sqrt(e/pi)) = %s, r = %s (reviewed values 0.6207822376352452, 10.900511), the 11 coefficients equal the reviewed table=%s: %s%s" % (
+        got == w, C.get("f"), R.get("f"), dk_ok, consts_ok, "" if got == w else "; found %s" % (got,))
+
+
+def _gterm_rv(prog, g, rv, env):
+    k = rv["k"]
+    if k == "use":
+        return _gterm(prog, g, rv["op"], env)
+    if k == "binop":
+        o = rv["op"].replace("WithOverflow", "").lower()
+        return (o, _gterm(prog, g, rv["l"], env), _gterm(prog, g, rv["r"], env))
+    return ("?", k)
